@@ -3,7 +3,7 @@ import base64, json, os
 import vlib
 
 PROP_FILES = ['Properties/C09']
-EXTRA_OBLIGATION_FILES = ['Proofs/AtomFront']
+EXTRA_OBLIGATION_FILES = ['Proofs/AtomFront', 'Proofs/AtomReplay']
 TRUSTED = [
     'Coq 8.16.1 kernel incl. vm_compute; theorems C09_*: Closed under the global context (X25519, AES-GCM and the net/http+base64 black box are universally quantified parameters of the decision model)',
     'hand-written models coq/Model/FirstPacket.v (connReadLine, readFirstPacket, goWeb as a relay), coq/Model/Hello.v (parseClientHello / parseExtensions / parseKeyShare with Go slice capacity semantics and explicit Panic outcome; unmarshalClientHello; unmarshalHidden), coq/Model/Dispatch.v (AuthFirstPacket + dispatchConnection decision)',
